@@ -53,14 +53,14 @@ def leaf(draw):
         f = draw(st.one_of(st.sampled_from([0.0, -0.0, 1.5, float("inf"), float("-inf"), float("nan"), 1e308, 5e-324]), st.floats()))
         v = struct.pack("<d", f).hex()
     elif t == "string":
-        n = draw(st.sampled_from([0, 1, 8, 36, 36, 100, 1023, 1024, 1025, 3000]))
+        n = draw(st.sampled_from([0, 1, 8, 36, 36, 100, 1023, 1024, 1025, 2047, 2048, 2049, 3000, 4096]))  # 2048 characters = one 4 KiB alignment unit
         v = draw(st.text(alphabet=STR_ALPHABET, min_size=min(n, 3), max_size=n)) if n < 200 else (draw(st.text(alphabet=STR_ALPHABET, min_size=1, max_size=8)) * n)[:n]
         if n and draw(st.integers(0, 7)) == 0:
             v = draw(st.sampled_from(["\ufeff", "\ufffe"])) + v[1:]
         if draw(st.integers(0, 9)) == 0:
             v = draw(st.sampled_from([v[:-1] + "\x00", "\x00", v[: len(v) // 2] + "\x00" + v[len(v) // 2 + 1:], v[:-2] + "\x00\x00"]))  # NULs are data
     elif t == "array":
-        n = draw(st.sampled_from([0, 1, 16, 100, 2047, 2048, 2049, 6000]))
+        n = draw(st.sampled_from([0, 1, 16, 100, 2047, 2048, 2049, 4095, 4096, 4097, 6000, 8192]))  # incl. exact multiples of the alignment
         v = bytes((i * 7 + n) & 0xFF for i in range(n)).hex()
     else:
         v = draw(st.booleans())
